@@ -215,6 +215,11 @@ func (g Gateway) Set(ctx context.Context, in *hydrapb.SetRequest) (*hydrapb.SetR
 			// return with grpc error message
 			return nil, status.Error(codes.InvalidArgument, fmt.Sprintf("KeyValues cannot be empty for the swamp: %s", swampRequest.GetSwampName()))
 		}
+		for _, kv := range swampRequest.GetKeyValues() {
+			if err := checkTreasureKey(kv.GetKey()); err != nil {
+				return nil, err
+			}
+		}
 	}
 
 	// try to summon the swamp
@@ -1854,6 +1859,12 @@ func (g Gateway) Uint32SlicePush(ctx context.Context, in *hydrapb.AddToUint32Sli
 	var errorsWhilePush []string
 
 	for _, pair := range in.KeySlicePairs {
+		if err := checkTreasureKey(pair.GetKey()); err != nil {
+			return nil, err
+		}
+	}
+
+	for _, pair := range in.KeySlicePairs {
 
 		func() {
 
@@ -2067,6 +2078,9 @@ func (g Gateway) IncrementInt8(ctx context.Context, in *hydrapb.IncrementInt8Req
 		// return with grpc error message
 		return nil, status.Error(codes.InvalidArgument, "IncrementBy cannot be zero")
 	}
+	if err := checkTreasureKey(in.GetKey()); err != nil {
+		return nil, err
+	}
 
 	// check the name of the swamp
 	swampName, err := checkSwampName(g.ZeusInterface, in.GetIslandID(), in.SwampName, false)
@@ -2130,6 +2144,9 @@ func (g Gateway) IncrementInt16(ctx context.Context, in *hydrapb.IncrementInt16R
 		// return with grpc error message
 		return nil, status.Error(codes.InvalidArgument, "IncrementBy cannot be zero")
 	}
+	if err := checkTreasureKey(in.GetKey()); err != nil {
+		return nil, err
+	}
 
 	// check the name of the swamp
 	swampName, err := checkSwampName(g.ZeusInterface, in.GetIslandID(), in.SwampName, false)
@@ -2191,6 +2208,9 @@ func (g Gateway) IncrementInt32(ctx context.Context, in *hydrapb.IncrementInt32R
 	if in.IncrementBy == 0 {
 		// return with grpc error message
 		return nil, status.Error(codes.InvalidArgument, "IncrementBy cannot be zero")
+	}
+	if err := checkTreasureKey(in.GetKey()); err != nil {
+		return nil, err
 	}
 
 	// check the name of the swamp
@@ -2254,6 +2274,9 @@ func (g Gateway) IncrementInt64(ctx context.Context, in *hydrapb.IncrementInt64R
 		// return with grpc error message
 		return nil, status.Error(codes.InvalidArgument, "IncrementBy cannot be zero")
 	}
+	if err := checkTreasureKey(in.GetKey()); err != nil {
+		return nil, err
+	}
 
 	// check the name of the swamp
 	swampName, err := checkSwampName(g.ZeusInterface, in.GetIslandID(), in.SwampName, false)
@@ -2315,6 +2338,9 @@ func (g Gateway) IncrementUint8(ctx context.Context, in *hydrapb.IncrementUint8R
 	if in.IncrementBy == 0 {
 		// return with grpc error message
 		return nil, status.Error(codes.InvalidArgument, "IncrementBy cannot be zero")
+	}
+	if err := checkTreasureKey(in.GetKey()); err != nil {
+		return nil, err
 	}
 
 	// check the name of the swamp
@@ -2378,6 +2404,9 @@ func (g Gateway) IncrementUint16(ctx context.Context, in *hydrapb.IncrementUint1
 		// return with grpc error message
 		return nil, status.Error(codes.InvalidArgument, "IncrementBy cannot be zero")
 	}
+	if err := checkTreasureKey(in.GetKey()); err != nil {
+		return nil, err
+	}
 
 	// check the name of the swamp
 	swampName, err := checkSwampName(g.ZeusInterface, in.GetIslandID(), in.SwampName, false)
@@ -2439,6 +2468,9 @@ func (g Gateway) IncrementUint32(ctx context.Context, in *hydrapb.IncrementUint3
 	if in.IncrementBy == 0 {
 		// return with grpc error message
 		return nil, status.Error(codes.InvalidArgument, "IncrementBy cannot be zero")
+	}
+	if err := checkTreasureKey(in.GetKey()); err != nil {
+		return nil, err
 	}
 
 	// check the name of the swamp
@@ -2502,6 +2534,9 @@ func (g Gateway) IncrementUint64(ctx context.Context, in *hydrapb.IncrementUint6
 		// return with grpc error message
 		return nil, status.Error(codes.InvalidArgument, "IncrementBy cannot be zero")
 	}
+	if err := checkTreasureKey(in.GetKey()); err != nil {
+		return nil, err
+	}
 
 	// check the name of the swamp
 	swampName, err := checkSwampName(g.ZeusInterface, in.GetIslandID(), in.SwampName, false)
@@ -2563,6 +2598,9 @@ func (g Gateway) IncrementFloat32(ctx context.Context, in *hydrapb.IncrementFloa
 	if in.IncrementBy == 0 {
 		// return with grpc error message
 		return nil, status.Error(codes.InvalidArgument, "IncrementBy cannot be zero")
+	}
+	if err := checkTreasureKey(in.GetKey()); err != nil {
+		return nil, err
 	}
 
 	// check the name of the swamp
@@ -2626,6 +2664,9 @@ func (g Gateway) IncrementFloat64(ctx context.Context, in *hydrapb.IncrementFloa
 	if in.IncrementBy == 0 {
 		// return with grpc error message
 		return nil, status.Error(codes.InvalidArgument, "IncrementBy cannot be zero")
+	}
+	if err := checkTreasureKey(in.GetKey()); err != nil {
+		return nil, err
 	}
 
 	// check the name of the swamp
@@ -2954,6 +2995,21 @@ func parseOptionalTimestamps(from, to *timestamppb.Timestamp) (fromTime, toTime 
 // parts (sanctuary/realm/swamp) that name.Load requires.
 func hasThreeNameParts(n string) bool {
 	return strings.Count(n, "/") >= 2
+}
+
+// maxTreasureKeyLength is the longest key the storage format can encode (16-bit length field).
+const maxTreasureKeyLength = 65535
+
+// checkTreasureKey refuses keys the storage layer cannot persist. Without this check the
+// write is acknowledged, lives in memory and silently disappears when the swamp is reloaded.
+func checkTreasureKey(key string) error {
+	if key == "" {
+		return status.Error(codes.InvalidArgument, "Key cannot be empty")
+	}
+	if len(key) > maxTreasureKeyLength {
+		return status.Error(codes.InvalidArgument, fmt.Sprintf("Key is longer than %d bytes", maxTreasureKeyLength))
+	}
+	return nil
 }
 
 func handlePanic() {
